@@ -1,10 +1,11 @@
 """C15 — MinGenSet and MinSetCover return true optima whenever one exists.
 
 Proof: FP/Props/C15.lean — the MILP of `_create_solver(k)` is feasible iff a generating multiset of size k exists
-(`mgs_feasible_iff`), the constructor's preprocessing keeps the generating multisets for multiplicity 1
-(`preprocess_sound`) and not for larger ones (`complement_removal_unsound_mult`), a search over a range returns
-the optimum of that range (`mgs_returns_optimum`), the range of the code misses the optimum of [1,2,4]/7
-(`mgs_range_stops_short_witness`); `mscLP`'s optima are the minimum-weight covers (`msc_opt_transfer`).
+(`mgs_feasible_iff`), the constructor's preprocessing keeps the generating multisets for every multiplicity
+(`preprocess_sound`; complements are dropped only for multiplicity 1 since fix 20bda28), a search over a range returns
+the optimum of that range (`mgs_returns_optimum`), the range of the code (fix 6c30e65) contains the optimum
+(`mgs_range_contains_optimum`, without partition constraints; [1,2,4]/7: `mgs_range_regression_124`); `mscLP`'s optima
+are the minimum-weight covers (`msc_opt_transfer`), `subset_weights=None` means unit weights (`msc_default_unit_weights`).
 Ties: K2 LP-dump equality of `MinGenSet._create_solver(k)` (+ the preprocessing) and `MinSetCover`'s LP with the
 Lean generators; K3 the search trace of `MinGenSet.solve` under forced statuses (reused from C13).
 Oracle (K5, property text only): exhaustive search for the smallest generating multiset / the cheapest cover.
@@ -18,9 +19,10 @@ from props import c13
 THEOREMS = ["FP.Props.C15." + t for t in
             ["mgs_sound", "mgs_sound_eff", "mgs_partition_sound", "mgs_complete", "mgs_complete_multiset",
              "mgs_effMult_eq", "mgs_feasible_iff", "mgs_cap_loses_solutions", "mgs_pi_bound_loses_solutions", "complement_removal_sound",
-             "preprocess_sound", "complement_removal_unsound_mult", "preprocess_unsound_mult", "genset_exists",
+             "preprocess_sound", "complement_removal_unsound_mult", "preprocess_keeps_complements_mult", "genset_exists",
              "mgs_returns_optimum", "mgs_range_contains_optimum", "mgs_range_misses_optimum",
-             "mgs_range_stops_short_witness", "msc_sound", "msc_complete", "msc_objective", "msc_opt_transfer"]]
+             "mgs_search_finds_least", "mgs_range_regression_124", "msc_sound", "msc_complete", "msc_objective", "msc_opt_transfer",
+             "msc_default_unit_weights"]]
 IMPORTS = ["FP.Props.C15"]
 RULE = ("MinGenSet: a hidden multiset of 2-4 values (ints, halves or eighths) with sum <= 40 units, 1-5 numbers that are "
         "sub-multiset sums of it (coefficients <= max_multiplicity 1..3) or random, optional complements/duplicates/0/total, "
@@ -226,8 +228,8 @@ def check_solution_float(sol, inst):
 
 
 def removed_by_preprocessing(inst):
-    """numbers the constructor drops when remove_complement_values is set (re-computed from the docstring:
-    of x and total-x the larger one; total; 0)"""
+    """numbers the constructor may drop when remove_complement_values is set (re-computed from the docstring:
+    of x and total-x the larger one; total; 0) -- used only to name the site of a failure"""
     nums, total = set(inst["numbers"]), inst["total"]
     if not inst["remove_complement"]:
         return set()
@@ -242,9 +244,7 @@ def mgs_case(ctx, inst, suite="K5.MinGenSet"):
     bmin = bm[0] if bm else None
     expect = None if bmin is None else max(lb, bmin)
     ctx.rep.cov["oracle_evaluations"] += 1
-    n0 = len(inst["numbers"])
-    hi = max(lb + 1, n0)
-    case = dict(inst, bmin=bmin, witness=None if bm is None else bm[1], expect=expect, range_hi=hi)
+    case = dict(inst, bmin=bmin, witness=None if bm is None else bm[1], expect=expect, range_hi=None)
     hist = ["MinGenSet", inst["weight_type"], f"mult={min(mult, 2)}{'+' if mult > 2 else ''}", f"unit={inst['unit']}",
             f"bmin={bmin}"] + (["partition"] if inst["partition"] else []) + ([f"lb={lb}"] if lb > 1 else [])
     try:
@@ -252,6 +252,8 @@ def mgs_case(ctx, inst, suite="K5.MinGenSet"):
     except ValueError as e:
         ctx.rep.count(suite, inst, nontrivial=False, hist=["MinGenSet", "ctor ValueError"])
         return case
+    hi = ctx.model_hi("MinGenSet", m)          # exclusive upper end of the k-loop of the tree under test
+    case["range_hi"] = hi
     try:
         ret = m.solve()
     except Exception as e:
@@ -287,7 +289,7 @@ def mgs_case(ctx, inst, suite="K5.MinGenSet"):
         if expect is not None:
             if expect >= hi:
                 viol(ctx, f"MinGenSet.solve() returned False although {bm[1]} (x{inst['unit']}) is a generating multiset of size "
-                              f"{bmin}: the loop range(lowerbound={lb}, max(lowerbound+1, len(numbers)={n0})) never tries k={expect}",
+                              f"{bmin}: the loop range(lowerbound={lb}, {hi}) never tries k={expect}",
                               case, site="MinGenSet.range")
             elif mult > 1 and any(a > total for a in inst["numbers"]):
                 viol(ctx, f"MinGenSet.solve() returned False (status {status}) although {bm[1]} (x{inst['unit']}) generates all numbers "
@@ -568,9 +570,27 @@ def run(ctx):
          "lowerbound": 1, "partition": None, "remove_complement": False},
         {"cls": "MinGenSet", "unit": "1/8", "numbers": [3, 2, 1], "total": 8, "weight_type": "float", "max_multiplicity": 3,
          "lowerbound": 1, "partition": None, "remove_complement": True},
+        # regression inputs of the repaired defects (6c30e65, 28c8a30, 20bda28)
+        {"cls": "MinGenSet", "unit": "1", "numbers": [1, 2, 4], "total": 8, "weight_type": "int", "max_multiplicity": 1,
+         "lowerbound": 1, "partition": None, "remove_complement": True},
+        {"cls": "MinGenSet", "unit": "1", "numbers": [1], "total": 3, "weight_type": "int", "max_multiplicity": 1,
+         "lowerbound": 1, "partition": [[1, 1, 1]], "remove_complement": True},
+        {"cls": "MinGenSet", "unit": "1", "numbers": [13, 13, 13, 15], "total": 22, "weight_type": "int", "max_multiplicity": 1,
+         "lowerbound": 3, "partition": None, "remove_complement": True},
+        {"cls": "MinGenSet", "unit": "1", "numbers": [4, 6, 4], "total": 10, "weight_type": "int", "max_multiplicity": 2,
+         "lowerbound": 1, "partition": None, "remove_complement": True},
     ]
     for inst in fixed:
         mgs_case(ctx, inst, suite="K5.fixed")
+    fixed_msc = [   # regression inputs of 3364d5e (default weights) and 1b0a466 (== 1 on solver values)
+        {"cls": "MinSetCover", "universe": [1, 2], "subsets": [[1], [2]], "weights": None, "containers": ["list", "list"]},
+        {"cls": "MinSetCover", "universe": ["a", 4, 1, "c"],
+         "subsets": [[1, 4], [1, "c", "a"], [4, "a"], [2, 3, 1, "c", 4], [2, "c", 4], [], [4]],
+         "weights": [2.25, 4.0, 1.5, 4.0, 0.5, 1.0, 0.5],
+         "containers": ["set", "set", "tuple", "list", "tuple", "tuple", "tuple"]},
+    ]
+    for inst in fixed_msc:
+        msc_case(ctx, inst, suite="K5.fixed")
     for mi in EDGE_CASES:
         raw_case(ctx, mi)
     for it in range(ctx.n(600, 15000)):
